@@ -361,11 +361,12 @@ Definition open_bnode (us colon : drune) (inp : list drune) (t : terminal) : pre
       else PBad
   end.
 
-(* drainLine: the rest of a comment up to and including LF; at the end of input the comment is committed only on io.EOF *)
+(* drainLine: the rest of a comment up to and including the first LF or CR (EOL ::= [#xD#xA]+); at the end of input the
+   comment is committed only on io.EOF *)
 Fixpoint drain_line (inp : list drune) (acc : list drune) : list drune * option (list drune) :=
   match inp with
   | [] => (rev acc, None)
-  | r0 :: rest => if N.eqb (fst r0) 10 then (rev (r0 :: acc), Some rest) else drain_line rest (r0 :: acc)
+  | r0 :: rest => if N.eqb (fst r0) 10 || N.eqb (fst r0) 13 then (rev (r0 :: acc), Some rest) else drain_line rest (r0 :: acc)
   end.
 
 Inductive pos_kind := KSubject | KPredicate | KObject | KGraph.
